@@ -158,6 +158,13 @@ def r23(facts, res):
             continue
         npaths += 1
         is_false = p.end[0] == 'return' and p.end[1] == ('const', 0)
+        # a pair that is not rejected must hand over to the NEXT pair of the same row: the path has to come back to the
+        # pair loop's own header (leaving the loop early skips the remaining pairs of this row unexamined)
+        if not is_false and not (p.end[0] in ('loop', 'stop') and p.end[1] == inner):
+            spec_ok = False
+            why = 'a pair that passes the conditions ends the pair loop (%s at block %s, line %s) instead of continuing with the next pair: the remaining pairs of the row are never examined' % (
+                p.end[0], p.end[1] if len(p.end) > 1 else '?', b.term(p.blocks[-1]).get('line') if getattr(p, 'blocks', None) else '?')
+            continue
         names = {'c1': frozenset(('Sa', 'Ob')), 'c2': frozenset(('Sb', 'Oa')), 'c3': frozenset(('Sa', 'Sb')), 'c4': frozenset(('Oa', 'Ob'))}
         unknown = [k for k in atoms if k not in names.values()]
         if unknown:
